@@ -375,6 +375,16 @@ type recStore struct {
 	r *e2eRig
 }
 
+// GetOpener reports every open of a source file as an "open" event (the scan's hashing phase and the
+// payload readers): a stop can then be aimed at the middle of the hashing fan-out.
+func (s recStore) GetOpener() sts.Open {
+	inner := s.FileSource.GetOpener()
+	return func(f sts.File) (sts.Readable, error) {
+		s.r.event("open %s", esc(f.GetName()))
+		return inner(f)
+	}
+}
+
 func (s recStore) Remove(f sts.File) error {
 	err := s.FileSource.Remove(f)
 	s.r.event("remove %s", esc(f.GetName()))
